@@ -148,6 +148,44 @@ func lockCall(s ast.Stmt) (x ast.Expr, write, ok bool) {
 	return nil, false, false
 }
 
+// usesLockFreeSync reports whether a simple statement (not a block) calls into sync/atomic or uses
+// the method names of sync.Once / sync.Map / atomic.Value (Do, LoadOrStore, CompareAndSwap, Swap,
+// LoadAndDelete). Purely syntactic: an unrelated method of the same name only costs a schedule point.
+func usesLockFreeSync(s ast.Stmt) bool {
+	switch s.(type) {
+	case *ast.ExprStmt, *ast.AssignStmt, *ast.ReturnStmt, *ast.IncDecStmt, *ast.DeferStmt:
+	default:
+		return false
+	}
+	found := false
+	ast.Inspect(s, func(n ast.Node) bool {
+		if _, isFunc := n.(*ast.FuncLit); isFunc {
+			return false
+		}
+		call, ok := n.(*ast.CallExpr)
+		if !ok {
+			return true
+		}
+		sel, ok := call.Fun.(*ast.SelectorExpr)
+		if !ok {
+			return true
+		}
+		if id, ok := sel.X.(*ast.Ident); ok && id.Name == "atomic" {
+			found = true
+		}
+		switch sel.Sel.Name {
+		case "LoadOrStore", "CompareAndSwap", "LoadAndDelete", "Swap":
+			found = true
+		case "Do":
+			if len(call.Args) == 1 {
+				found = true
+			}
+		}
+		return true
+	})
+	return found
+}
+
 // addressable: &X is valid Go for these forms (a call result is not).
 func addressable(e ast.Expr) bool {
 	switch t := e.(type) {
@@ -213,6 +251,12 @@ func rewriteFile(name string, src []byte) ([]byte, []string, error) {
 					out = append(out, parseStmt(fmt.Sprintf("simSend(%q, func() bool { return len(%s) == cap(%s) })", site, ch, ch)))
 					n = append(n, site)
 				}
+			}
+			if usesLockFreeSync(s) && !(i > 0 && isCallTo(list[i-1], "simYield")) {
+				// sync/atomic, sync.Once and sync.Map operations order memory but are not locks: a
+				// check-then-act built on them is race-free and still not atomic, so it gets a schedule point
+				out = append(out, parseStmt(fmt.Sprintf("simYield(%q)", site)))
+				n = append(n, site)
 			}
 			if ch := recvExpr(s); ch != nil {
 				c := exprString(fset, ch)
